@@ -22,6 +22,7 @@ CONSTANTS
   MaxPos = 3
   MaxKw = 2
   BugRuntimeIgnoresKwDefaults = FALSE
+  BugStringDropsAllowUnpack = FALSE
   FixedDunder = FALSE
 INVARIANT HeaderViewsAgree
 INVARIANT ViewsMatchInspect
